@@ -66,9 +66,9 @@ CLAIMED = {
          "piece by its halves recursively (pieces = the original restricted to consecutive dyadic intervals tiling [0,1]), keeps the outer handles and all original nodes, and leaves only flat pieces.",
          NOTE_COMMON + "beziersplitatt is dependency code (modelled). On the quarter-integer grid the float run is exact and compared node for node. Termination is proved in exact arithmetic; in floats "
          "a piece can stop shrinking at the resolution of the format (not modelled).", "DESIGN.md section 5, C10"),
- "C11": ("Coq proof (field/lra over Q) of the SVG equations for the numeric core + kernel-evaluated parse sweep + bit-exact float correspondence",
+ "C11": ("Coq proof (field/lra over Q) of the SVG equations for the numeric core + general parse theorem over all spellings + bit-exact float correspondence",
          "Theorem C11_core: for all positive sizes and every alignment x meet/slice the exact-layer result satisfies the SVG 1.1 preserveAspectRatio equations; C11_valid ties the "
-         "string layer to the core; C11_parse_sweep decides 8100 case/separator/defer spellings in the kernel; identity and no-raise theorems. The same model with round-to-nearest-even "
+         "string layer to the core; C11_parse_general: for every letter-case variant of defer / the ten alignments / meet / slice and every run of white space and commas between and around them the parser extracts exactly the alignment and the keyword (C11_tokens: the tokeniser on any sentence of words); C11_parse_sweep additionally decides 8100 spellings in the kernel; identity and no-raise theorems. The same model with round-to-nearest-even "
          "after every operation is compared bit for bit with plot_utils.vb_scale, and outputs are judged against the exact answer within 1e-9.",
          NOTE_COMMON + "Float rounding is modelled by Base/Rnd.v (executed, not proved equal to IEEE 754); CPython float(str) assumed correctly rounded.",
          "DESIGN.md section 5, C11"),
